@@ -500,7 +500,14 @@ fn cmd_run(args: &[String]) -> i32 {
                 detail = f.detail.clone();
             }
         }
-        let fp = fingerprint(kind, rule, op);
+        // the minimal failing call sequence (shortest, then first in enumeration order) is part of the identity of a
+        // finding: another defect that trips the same rule at the same operation has another minimal witness.
+        // RandomPolicy's victims are not reproducible, so its classes carry no witness.
+        let fp = if kind == Kind::Random {
+            fingerprint(kind, rule, op)
+        } else {
+            format!("{}@{}:{}", fingerprint(kind, rule, op), cfg.describe().split(' ').next().unwrap_or(""), show_calls(&calls).replace(' ', ""))
+        };
         if reproduced < 2 {
             eprintln!("policyx: {fp} seen during exploration on {} {} but reproduced only {reproduced}/2 times on re-execution; not reported", cfg.describe(), show_calls(&calls));
             continue;
@@ -593,7 +600,8 @@ fn cmd_replay(path: &str) -> i32 {
     }
     let fps: Vec<String> = out.found.iter().map(|f| fingerprint(cfg.kind, f.rule, f.op)).collect();
     let reproduced = match &expected {
-        Some(e) => fps.iter().any(|f| f == e),
+        // the expected fingerprint may carry the minimal witness after '@': compare the class
+        Some(e) => fps.iter().any(|f| f == e.split('@').next().unwrap_or(e)),
         None => !fps.is_empty(),
     };
     if reproduced {
